@@ -132,8 +132,31 @@ func wide16(op int, a, b uint16, f uint8) (uint16, uint8) {
 	}
 }
 
+// c03Mem: flat memory whose cells around the instruction are read-sensitive - the first read of a cell within one point
+// delivers its byte, every further read something else (C05: each instruction byte is read once; a handler that looks
+// at its own opcode again, or at the bytes in front of it, must not get away with it).
+type c03Mem struct {
+	m   [65536]uint8
+	gen uint32
+	cnt [64]uint32 // generation stamp of the first read of cells 0x00E0..0x011F
+}
+
+func (f *c03Mem) Get(a uint16) uint8 {
+	if i := a - 0x00E0; i < 64 {
+		if f.cnt[i] == f.gen {
+			return ^f.m[a] ^ 0x5A
+		}
+		f.cnt[i] = f.gen
+	}
+	return f.m[a]
+}
+func (f *c03Mem) Set(a uint16, v uint8) { f.m[a] = v }
+
+var c03Pre1 = [4]uint8{0xDD, 0xFD, 0xED, 0x3E}
+var c03Pre2 = [4]uint8{0xFD, 0xCB, 0xDD, 0x10}
+
 type c03Rig struct {
-	m    flatMem
+	m    c03Mem
 	cpus [2]z80.CPU // ping-pong: each point runs on a struct copy of the CPU value that ran the previous one
 	cur  int
 	c    *z80.CPU
@@ -182,8 +205,23 @@ func (r *c03Rig) point(e *enc16, a, b uint16, f uint8) bool {
 	prev.AF.Lo = ^f
 	c := &r.cpus[r.cur]
 	r.c = c
-	// what follows the instruction in memory varies with the operands (it must not matter)
+	// what follows the instruction in memory, and what stands in front of it (a byte that looks like a prefix but is
+	// none: the operand of LD A,0FDh, the displacement of DJNZ -3), varies with the operands (it must not matter)
 	r.m.m[0x0100+len(e.code)] = uint8(a) ^ uint8(b>>8) ^ f
+	if b&3 == 0 {
+		r.m.m[0x00FF] = c03Pre1[(a^b>>3)&3]
+		r.m.m[0x00FE] = c03Pre2[(a>>2^b>>2)&3]
+	}
+	if (a+b*3+uint16(f))&2047 == 0 {
+		// history: this CPU value has just executed a prefix in front of an opcode that has no indexed form (whatever
+		// the tree makes of DD 00 / FD 00 / DD DD 00); all public state is overwritten afterwards
+		r.m.m[0x00F0], r.m.m[0x00F1], r.m.m[0x00F2], r.m.m[0x00F3] = [2]uint8{0xDD, 0xFD}[a>>7&1], [2]uint8{0x00, 0xDD}[b>>9&1], 0x00, 0x00
+		c.States = r.base
+		c.PC = 0x00F0
+		r.m.gen++
+		c.Step()
+	}
+	r.m.gen++
 	c.States = r.base
 	c.AF.Lo = f
 	set16(c, e.src, b)
